@@ -233,6 +233,9 @@ def errctx_items(r: Any, n: int) -> list[dict[str, Any]]:
         text = "".join(parts)
         idxs = {0, len(text), max(len(text) - 1, 0), len(text) + 1, len(text) + r.randint(2, 5)}
         idxs |= {r.randint(0, max(len(text), 1)) for _ in range(2)}
+        # every line start and the position just before it
+        for m in re.finditer("\r\n|[\n\r\x0b\x0c\x1c\x1d\x1e\x85\u2028\u2029]", text):
+            idxs |= {m.end(), m.end() - 1, m.start()}
         for idx in sorted(idxs):
             try:
                 ln, col, prev, cur, nxt = probe._error_context(text, idx)
